@@ -184,16 +184,32 @@ func runC04(c *report.Ctx) {
 			k     string
 			name  string
 		}{{"externalBranchPriv", constString(extB), "ExternalBranch"}, {"internalBranchPriv", constString(intB), "InternalBranch"}} {
-			ok, any := false, false
+			ok, any := true, false
 			for _, st := range fieldStores(gp, bi, t.field) {
-				any = true
 				v := st.(*ssa.Store).Val
+				if an.IsNilConst(v) {
+					continue
+				}
+				any = true
+				good := false
 				if ex, isEx := v.(*ssa.Extract); isEx {
 					if call, isCall := ex.Tuple.(*ssa.Call); isCall && call.Call.StaticCallee() == child {
 						if k, isK := call.Call.Args[1].(*ssa.Const); isK && k.Value != nil && k.Value.ExactString() == t.k {
-							ok = true
+							good = true
+						} else if strings.HasSuffix(p.Desc(call.Call.Args[1]), "derivationPath.Branch") {
+							// Child(address.derivationPath.Branch), stored on the side of the branch test that names this field
+							wantOp := token.EQL
+							if t.field == "externalBranchPriv" {
+								wantOp = token.NEQ
+							}
+							good = an.AnyAtom(p.GuardsOf(st), func(a an.Atom) bool {
+								return a.Op == wantOp && a.X != nil && strings.HasSuffix(p.Desc(a.X), "derivationPath.Branch") && a.Y != nil && p.Desc(a.Y) == constString(intB)
+							})
 						}
 					}
+				}
+				if !good {
+					ok = false
 				}
 			}
 			key := sk(gp) + ":" + t.field
